@@ -469,11 +469,18 @@ func typeOfJSONValue(v any) ExprType {
 		}
 		return &ArrayType{Elem: elem}
 	case map[string]any:
+		// Property names are case insensitive. Keys of ObjectType.Props must be in lower case. When
+		// multiple keys are identical in case insensitive, their types are merged. Visit keys in
+		// sorted order since the result of merging types depends on the order.
+		keys := make([]string, 0, len(v))
+		for k := range v {
+			keys = append(keys, k)
+		}
+		sort.Strings(keys)
 		props := make(map[string]ExprType, len(v))
-		for k, v := range v {
-			// Property names are case insensitive. Keys of ObjectType.Props must be in lower case
+		for _, k := range keys {
+			t := typeOfJSONValue(v[k])
 			k = strings.ToLower(k)
-			t := typeOfJSONValue(v)
 			if p, ok := props[k]; ok {
 				t = p.Merge(t)
 			}
